@@ -1,9 +1,10 @@
 """C16 — time evolution reaches exp(-iHt).
 
 Three ingredients (see tools/README.md):
-  * kernel step: theorems of lean/QV/Props/C16.lean, C16b.lean, C16c.lean (model:
+  * kernel step: theorems of lean/QV/Props/C16.lean, C16b.lean, C16c.lean, C16d.lean (model:
     lean/QV/Model/Evolution.lean; proofs lean/QV/Proofs/Evolution.lean, EvolutionExp.lean,
-    EvolutionOrder.lean, EvolutionBound.lean);
+    EvolutionOrder.lean, EvolutionBound.lean, EvolutionGlobal.lean, EvolutionRK.lean,
+    EvolutionTimed.lean);
   * correspondence (driver lean/DriverC16.lean), exact Gaussian-integer data:
       - the real `TermGroup.from_terms`, `TermGroup.term`, `TermGroup.to_term(coefficients)`
         (hence `HamiltonianTerm.merge`) on lists of raw `HamiltonianTerm`s with arbitrary
@@ -14,7 +15,10 @@ Three ingredients (see tools/README.md):
         (targets, order) exactly, gate matrices against expm of the model's merged matrices;
       - the real number of steps of `StateEvolution.execute` (counted through a callback)
         against the model's IEEE-double `nstepsF`;
-  * direct search on the real code against scipy's expm (the SPEC).
+      - the times at which the real solvers use the Hamiltonian and their final clock against the
+        model's `readLog`, bit for bit (props/C16_global.py);
+  * direct search on the real code against scipy's expm (the SPEC), including the PROVED local and
+    global error bounds evaluated on the real circuits / solvers (props/C16_global.py).
 """
 from __future__ import annotations
 
@@ -1464,7 +1468,7 @@ def run(ctx):
     build_and_audit(ctx, PROP, modules, theorems)
     ctx.trusted += [
         "scipy.linalg.expm is an oracle meaning NormedSpace.exp (its values are compared with the model's merged matrices through expm itself)",
-        "the local bound ‖S(dt) − exp(−i dt H)‖ ≤ 2 r3(|dt| Σ‖h_j‖) is proved for every term list (C16c: T16_trotter_error_bound, TrotterThirdOrder_proved) and evaluated on the real circuits; the GLOBAL convergence orders of the solvers over many steps are not proved: they are measured on the real code on every run (error ratio under dt halving)",
+        "the local bound ‖S(dt) − exp(−i dt H)‖ ≤ 2 r3(|dt| Σ‖h_j‖) is proved for every term list (C16c: T16_trotter_error_bound, TrotterThirdOrder_proved) and evaluated on the real circuits; the GLOBAL bounds over k steps (C16d: Trotter k·2 r3(dt L), rk4 / rk45 (1+eps)^k − 1, time-dependent Trotter against the frozen exponentials) are proved in the spectral norm for Hermitian terms and evaluated on the real circuit powers, solver steps, StateEvolution and AdiabaticEvolution on every run; convergence of the frozen-step product to the time-ordered exponential for time-dependent H is not proved: it is measured (error ratio under dt halving)",
         "Lean's Float is IEEE binary64 like Python's float (the kernel evaluates it through Lean's software model; the driver through the hardware)",
     ]
     ctx.notes.append(
@@ -1480,3 +1484,9 @@ def run(ctx):
     evolution_search(ctx)
     history_search(ctx)
     adiabatic_search(ctx)
+    # part 4: the global bounds of Props/C16d evaluated on the real code; the solvers' clock
+    import sys
+
+    from props import C16_global
+
+    C16_global.run_suites(ctx, sys.modules[__name__])
